@@ -8,10 +8,11 @@ sys.path.insert(0, os.path.dirname(os.path.dirname(os.path.abspath(__file__))))
 from qsverif.model import load_sources, fingerprint   # noqa
 
 root = sys.argv[1] if len(sys.argv) > 1 else '/repo'
-out = {'classes': {}, 'modfuncs': {}, 'prints': {}, 'fields': {}}
+out = {'classes': {}, 'modfuncs': {}, 'prints': {}, 'fields': {}, 'modules': {}}
 for rel, src in sorted(load_sources(root).items()):
     t = ast.parse(src)
     mod = rel[:-3].replace('/', '.')
+    out['modules'][rel] = sorted({n.name for n in ast.walk(t) if isinstance(n, (ast.FunctionDef, ast.ClassDef))})
     for st in t.body:
         if isinstance(st, ast.ClassDef):
             q = '%s.%s' % (mod, st.name)
